@@ -236,18 +236,25 @@ def gen_api(rng, tier):
     shapes2 = list(itertools.product(ext, ext))
     shapes3 = list(itertools.product(ext, ext, ext))
     if tier == "quick":
-        shapes3 = rng.sample(shapes3, 22)
-        per = {1: 10, 2: 5, 3: 3}
+        shapes3 = rng.sample([s for s in shapes3 if 0 not in s], 20) + rng.sample([s for s in shapes3 if 0 in s], 6)
+        per = {1: 12, 2: 8, 3: 4}
+        per_unpruned = {1: 4, 2: 2, 3: 1}
     else:
-        per = {1: 30, 2: 14, 3: 5}
+        per = {1: 40, 2: 24, 3: 8}
+        per_unpruned = {1: 10, 2: 5, 3: 2}
     patterns = ["lines", "lines", "half", "sparse", "full", "empty"]
     arrays = []
     for sh in shapes1 + shapes2 + shapes3:
+        if 0 in sh:                                # nothing can be stored: one array per shape is enough
+            arrays.append((gen_spec(rng, sh, rng.choice(FILLS), "empty", False), "coo"))
+            continue
         for i in range(per[len(sh)]):
             fill = FILLS[i % len(FILLS)] if i < 4 else rng.choice(FILLS)
             pat = patterns[i % len(patterns)] if i < 6 else rng.choice(patterns)
-            unpruned = (i % 5 == 4)
-            arrays.append((gen_spec(rng, sh, fill, pat, unpruned), "coo"))
+            arrays.append((gen_spec(rng, sh, fill, pat, False), "coo"))
+        # inputs built on purpose with stored values equal to the fill value (ties with the fill)
+        for i in range(per_unpruned[len(sh)]):
+            arrays.append((gen_spec(rng, sh, rng.choice(FILLS), rng.choice(["lines", "half", "full"]), True), "coo"))
     # other formats (pruned inputs only)
     extra = rng.sample(shapes1[1:] + shapes2 + shapes3, 24 if tier == "quick" else 80)
     for sh in extra:
